@@ -329,7 +329,7 @@ def build():
                   ("the name is free when the callback runs (so check() is truthful inside it)",
                    "not_pending_at_callback(name)"),
                   ("the event queue is drained after the callback", "drained_after_callback()")],
-         modifies=MOD, raises={}, no_inv=True)
+         modifies=MOD, raises={}, no_inv=True, inline_calls=True)     # executed in line when called directly
 
     # ------------------------------------------------------------------ PeriodicTask (clock intervals)
     C.cls("PeriodicTask", file=CLOCK, fields=dict(_canceled=Bool, _interval=Real, _callback=Fn, _loop=ObjS("Loop"),
